@@ -175,7 +175,7 @@ def run (op : String) (a : Json) : Option (Except String Json) :=
       let v := getField a "v"
       let t ← getStr v "t"
       match String.ofList t with
-      | "list" =>
+      | "list" | "tuple" =>
         let items ← (← getArr v "v").mapM parseAtom
         pure <| match listSerialize kw items with
           | .ok (ss, m) => jSer (.ok (joinSp ss, m))
